@@ -503,7 +503,9 @@ def run(ctx: Any) -> None:
             ctx.violation("client-op-crash-" + str(f[1]), f"{op}: unexpected {f[1:]}", rep)
         elif f[0] == "rpcerror" and f[1] in ("RequestTooLarge", "ExternalUploadFailed"):
             code = "(9%N, 0%N)"
-        elif f[0] == "rpcerror" and n == 0 and "finished" in f[2]:
+        elif f[0] == "rpcerror" and f[1] == "ProtocolError" and n == 0 and "cancelled" in f[2]:
+            code = "(11%N, 0%N)"
+        elif f[0] == "rpcerror" and f[1] == "ProtocolError" and n == 0 and "finished" in f[2]:
             code = "(8%N, 0%N)"
         else:
             code = f"(0%N, {last_status if last_status is not None else 97}%N)"
